@@ -6,7 +6,7 @@ open BinNums
 open Zutil
 open HgImpl
 
-type node = { mutable st : hg; shadow : (string, string) Hashtbl.t }
+type node = { mutable st : hg; shadow : (string, string) Hashtbl.t; mutable pools : NodeModel.pools; self : string }
 
 let nodes : (string, node) Hashtbl.t = Hashtbl.create 16
 let dead : (string, unit) Hashtbl.t = Hashtbl.create 16   (* nodes with injected faults: not modelled any more *)
@@ -113,7 +113,7 @@ let node_of id = try Hashtbl.find nodes id with Not_found -> failwith ("unknown 
 
 let handle check diff (toks : string list) (raw : string) : bool =
   match toks with
-  | ("B" | "I" | "G" | "o" | "K" | "J" | "P") :: id :: _ when Hashtbl.mem dead id -> true
+  | ("B" | "I" | "G" | "o" | "K" | "J" | "P" | "T") :: id :: _ when Hashtbl.mem dead id -> true
   | "J" :: id :: rest ->                       (* InsertEvent only (batched consensus passes) *)
     let n = node_of id in
     let (e, tail) = parse_event rest in
@@ -128,7 +128,7 @@ let handle check diff (toks : string list) (raw : string) : bool =
     let ps = map (fun t -> match Stdlib.String.split_on_char ':' t with
         | [pid; ord] -> { Quorum.pid = z_of_string pid; pkey = z_of_string ord }
         | _ -> failwith "peer") gen in
-    Hashtbl.replace nodes id { st = init_hg (z_of_string self) ps []; shadow = Hashtbl.create 256 }; true
+    Hashtbl.replace nodes id { st = init_hg (z_of_string self) ps []; shadow = Hashtbl.create 256; pools = NodeModel.pools0; self = self }; true
   | "B" :: id :: bid :: [] ->
     let n = node_of id in n.st <- { n.st with oracle = n.st.oracle @ [z_of_string bid] }; true
   | "I" :: id :: rest ->
@@ -137,13 +137,24 @@ let handle check diff (toks : string list) (raw : string) : bool =
     let (res, st') = insert_and_run n.st e in
     n.st <- st';
     let expect = match tail with "=>" :: r :: _ -> r | _ -> "?" in
-    check "I" raw expect (res_str res); true
+    check "I" raw expect (res_str res);
+    (* pools (NodeModel): a self-event carries exactly the transactions pending at its creation *)
+    if n.self <> "-1" && zs e.e_creator = n.self && res = InsOk then begin
+      let pending = join (map zs n.pools.NodeModel.p_txs) in
+      check "SELF" raw (join (map zs e.e_txs)) pending;
+      n.pools <- NodeModel.pstep n.pools (NodeModel.PSelfEvent (true, true, [], []))
+    end;
+    true
+  | "T" :: id :: txs ->
+    let n = node_of id in
+    n.pools <- NodeModel.pstep n.pools (NodeModel.PSubmit (map z_of_string txs)); true
   | "G" :: id :: [] -> let n = node_of id in n.st <- process_sigpool n.st; true
   | "o" :: id :: key :: value ->
     let n = node_of id in Hashtbl.replace n.shadow key (join value); true
   | "K" :: id :: [] ->
     let n = node_of id in
     let d = dump n.st in
+    let d = if n.self <> "-1" then ("pl", join (map zs n.pools.NodeModel.p_txs)) :: d else d in
     let bad = ref 0 in
     if n.st.failed then (incr bad; diff "K" raw "no-error" "model consensus pass failed");
     let seen = Hashtbl.create 256 in
